@@ -138,6 +138,12 @@ def coq_out(o):
     return '(Some (%s, %s))' % (qlit(Fraction(o[0])), qlist(o[1]))
 
 
+def coq_fixed_direct_case(c, out):
+    """direct case: (tolerance, case); tolerance 0 unless the implementation returned floats."""
+    tol = Fraction(1, 10 ** 9) if (out is not None and len(out) > 2 and out[2]) else Fraction(0)
+    return '(%s, %s)' % (qlit(tol), coq_fixed_case(c, out))
+
+
 def coq_fixed_case(c, out):
     spacing = Fraction(0) if c['collapse'] else Fraction(c['spacing'])
     cells = c['cells'] or []
@@ -330,6 +336,13 @@ def gen_pref(rng, n):
                                     width=['px', rq(rng, 10, 90)] if rng.random() < 0.15 else 'auto'))
                 x += span
             rows.append(row)
+        # a column without any originating cell (only spanned): drop its first-row cell when a colspan cell covers it
+        if rng.random() < 0.2:
+            covered = [x for row in rows[1:] for cell in row if cell['span'] > 1 for x in range(cell['gx'] + 1, cell['gx'] + cell['span'])]
+            free = [x for x in covered if all(not (cell['gx'] == x) for row in rows[1:] for cell in row)]
+            if free:
+                x = rng.choice(free)
+                rows[0] = [cell for cell in rows[0] if cell['gx'] != x]
         cols, group = [], None
         if rng.random() < 0.3:
             cols = [width_decl(rng.choice(['auto', 'constrained', 'percentage'])) for _ in range(rng.randint(1, ncols))]
@@ -693,23 +706,6 @@ def spacing_excess(t):
     return sum(ws) + (len(ws) + 1) * fl(t['spacing']) - fl(t['W'])
 
 
-def excused_no_origin(t, orig_cols):
-    """Open finding (reported, see the final report): in the separate model auto_table_layout reserves spacing only
-    for columns that have an originating cell while table_layout puts a spacing after every column.  Precisely
-    that discrepancy is recognised here (and nothing else): excess == spacing * (columns without originating cell)."""
-    n = len(t['ws'])
-    missing = n - len([x for x in orig_cols if x < n])
-    s = fl(t['spacing'])
-    return (not t['collapse']) and (not t['fixed']) and s > 0 and missing > 0 and abs(spacing_excess(t) - s * missing) < 1e-6
-
-
-def min_gt_max(r):
-    """the recorded oracle of an auto_table_layout call has a column whose min-content width exceeds its max-content
-    width (reported finding: the colspan loop of preferred.py distributes min-content excess in proportion to the
-    max-content widths and does not keep max >= min)."""
-    return any(Fraction(c[4]) > Fraction(c[3]) + Fraction(1, 10 ** 6) for c in r.get('cols', []))
-
-
 def widths_as_computed(t, records):
     """the fragment's column widths must be the output of one of the recorded auto/fixed layout calls of that table.
     Returns None if fine, 'mirrored' if they are the reverse of one (rtl), 'different' otherwise."""
@@ -737,10 +733,10 @@ def monitor_fragment(t, meta, orig_cols, records, first_page):
     if wc:
         bad.append(('column-widths-as-computed', (t['page'], t['ws'])))
     if n and abs(spacing_excess(t)) > PEPS * max(1, fl(t['W'])):
-        bad.append(('columns-plus-spacing-equal-table-width' + ('[no-originating-cell]' if excused_no_origin(t, orig_cols) else ''),
+        bad.append(('columns-plus-spacing-equal-table-width',
                     (t['W'], t['ws'], t['spacing'])))
     if any(w < -PEPS for w in ws):
-        bad.append(('column-width-non-negative' + ('[fixed-layout]' if t['fixed'] else ''), t['ws']))
+        bad.append(('column-width-non-negative', t['ws']))
     # (table_layout tests the header of the whole table, displayed on this fragment or not)
     has_header = bool((meta or {}).get('head')) or any(g['header'] for g in t['groups'])
     first_body = next((r['rid'] for g in t['groups'] if not g['header'] and not g['footer'] for r in g['rows']), None)
@@ -763,21 +759,14 @@ def monitor_fragment(t, meta, orig_cols, records, first_page):
                 elif ri + c['rowspan'] - 1 < len(rows):
                     last = rows[ri + c['rowspan'] - 1]
                     if abs(fl(c['y']) + fl(c['bh']) - (fl(last['y']) + fl(last['h']))) > PEPS:
-                        # reported finding: the last row is empty (height 0) and starts below the cell's own bottom:
-                        # the cell is then not stretched down to it
-                        tag = '[empty-last-row]' if (fl(last['h']) == 0 and fl(c['y']) + fl(c['bh']) <= fl(last['y']) + PEPS) else ''
-                        bad.append(('rowspan-cell-ends-with-its-last-row' + tag, (c['cid'], c['y'], c['bh'], last['y'], last['h'])))
+                        bad.append(('rowspan-cell-ends-with-its-last-row', (c['cid'], c['y'], c['bh'], last['y'], last['h'])))
                 # widest unbreakable content (auto layout only: fixed layout does not look at content)
                 text = (meta or {}).get('cells', {}).get(c['cid'], '')
                 if not t['fixed'] and text.split() and c['k'] >= 1 and c['gx'] + c['k'] <= n:
                     need = max(len(w) for w in text.split()) * 10 + fl(c['bp'])
                     have = sum(ws[c['gx']:c['gx'] + c['k']]) + s * (c['k'] - 1)
                     if have < need - 1e-4:
-                        span_cols = range(c['gx'], c['gx'] + c['k'])
-                        tag = '[oracle-min-gt-max]' if any(
-                            Fraction(r['cols'][i][4]) > Fraction(r['cols'][i][3]) + Fraction(1, 10 ** 6)
-                            for r in records if r.get('cols') for i in span_cols if i < len(r['cols'])) else ''
-                        bad.append(('column-at-least-widest-unbreakable-content' + tag, (c['cid'], need, have)))
+                        bad.append(('column-at-least-widest-unbreakable-content', (c['cid'], need, have)))
         for a, b in zip(rows, rows[1:]):
             if fl(b['y']) < fl(a['y']) + fl(a['h']) - PEPS:
                 bad.append(('rows-do-not-overlap', (a['rid'], b['rid'])))
@@ -917,9 +906,6 @@ def judge_docs(run, specs, docs, thorough, need_all=True):
         if o.get('crash'):
             cr = o['crash']
             sig = 'crash:%s' % (tuple(cr['site']) if cr['site'] else None,)
-            if cr['type'] == 'ZeroDivisionError' and cr['site'] and cr['site'][2] == 'auto_table_layout' and \
-                    o['auto'] and min_gt_max(o['auto'][-1]):
-                sig = 'crash:auto_table_layout-zero-division[oracle-min-gt-max]'
             finding(run, S['tally'], sig, 'render raised %s at %s' % (cr['type'], cr['site']),
                     {'stream': name, 'html': d['html'], 'exc': cr,
                      'doc': {k: d[k] for k in ('html', 'meta', 'mode', 'page_h', 'stream')}})
@@ -966,8 +952,6 @@ def judge_docs(run, specs, docs, thorough, need_all=True):
             meta = d['meta'].get(t['tid'])
             S['keys'].add((len(t['ws']), t['rtl'], t['collapse'], t['fixed'], len(t['groups'])))
             bad = monitor_fragment(t, meta, orig[t['tid']], recs.get(t['tid'], []), first_page[t['tid']])
-            t['_excused'] = excused_no_origin(t, orig[t['tid']])
-            t['_mirrored'] = any(c.startswith('column-widths-as-computed[') for c, _ in bad)
             cases['grid'].append((di, t, coq_grid_case(t)))
             seen = set()
             for clause, detail in bad:
@@ -1018,11 +1002,7 @@ def judge_docs(run, specs, docs, thorough, need_all=True):
                 S['oracle_bad'] += 1
             if m & 2:
                 sig = '%s-spec' % tag
-                if tag == 'grid' and r.get('_excused'):
-                    sig = 'grid-spec[no-originating-cell]'
-                elif tag == 'grid' and r.get('_mirrored'):
-                    continue
-                elif nspec >= 2:
+                if nspec >= 2:
                     continue
                 else:
                     nspec += 1
@@ -1097,7 +1077,8 @@ def pref_stream(run, cases):
         elif m & 2:
             what = 'a colspan cell does not fit in the columns it spans plus the horizontal spacings between them'
         else:
-            # table min-content width = columns + (n+1) horizontal spacings (every column has an originating cell here)
+            # table min-content width = columns + (n+1) horizontal spacings, n = every column of the grid, with or
+            # without an originating cell
             h = Fraction(0) if c['collapse'] else Fraction(c['h'])
             mins, ths, tmin = [Fraction(x) for x in o[0]], Fraction(o[4]), Fraction(o[5])
             if ths != h * (len(mins) + 1) or tmin != sum(mins) + ths:
@@ -1157,7 +1138,7 @@ def check(run):
                   lambda c: (dist_group(c), len(c['cols']), c['start'], c['stop'], bool(c.get('alias'))),
                   'all pairs of 8 column kinds x 5 slices, then random columns (profiles steer which of the six groups exist), '
                   'random slices incl. empty/out of range, aliasing of widths and max-content list as in preferred.py')
-    direct_stream(run, 'fixed-direct', 'fixed', gen_fixed(rng, 800 * n), coq_fixed_case, FIXED_T, 'fixed_judge',
+    direct_stream(run, 'fixed-direct', 'fixed', gen_fixed(rng, 800 * n), coq_fixed_direct_case, 'Q * (%s)' % FIXED_T, 'fixed_judge_t',
                   lambda c: (len(c['cols']), tuple(x['span'] for x in (c['cells'] or [])), c['collapse']),
                   'stub tables: 0..6 col elements auto/px/%, first row of 1..6 cells with colspan 1..3, widths auto/px/%, '
                   'paddings and borders, spacing, separate/collapse, table widths from too small to too large')
@@ -1180,7 +1161,7 @@ def replay(data):
     d = data.get('data', {})
     st = d.get('stream')
     table = {'dist-direct': ('dist', coq_dist_case, DIST_T, 'dist_judge'),
-             'fixed-direct': ('fixed', coq_fixed_case, FIXED_T, 'fixed_judge'),
+             'fixed-direct': ('fixed', coq_fixed_direct_case, 'Q * (%s)' % FIXED_T, 'fixed_judge_t'),
              'auto-direct': ('auto', coq_auto_case, AUTO_T, 'auto_judge'),
              'pref-direct': ('pref', coq_pref_case, PREF_T, 'pref_judge')}
     if st in table:
